@@ -112,7 +112,7 @@ func genScene(r *rand.Rand, budget int, maxFields int) *scene {
 			}
 			// attributes of this field: non-empty subset; field 0 always carries Position
 			for i, a := range sc.Attrs {
-				if (i == 0 && f == 0) || r.Intn(2) == 0 {
+				if (i == 0 && f == 0) || r.Intn(10) < 7 {
 					fd.Attrs = append(fd.Attrs, a)
 				}
 			}
@@ -368,30 +368,28 @@ func (sc *scene) field(i int, pr *probe) marching.Field {
 // triangle multisets
 // ---------------------------------------------------------------------------
 
-type triKey [9]int64
+// A marched mesh is read as the list of its triangles (corner positions). Two meshes are
+// compared as multisets of triangles whose corners are identified up to the welds that
+// March applies: a 4-decimal weld in cell units across blocks followed by a 3-decimal weld
+// in world units, both "first vertex seen wins" over a block order that is a Go map order
+// even in the sequential code. The surviving representative of a corner therefore moves by
+// up to ~1.03e-3 per coordinate between two runs on identical canvas data, and a sliver
+// triangle can be dropped in one run and kept in the other. So corners of BOTH meshes are
+// clustered together (single linkage, Chebyshev distance <= clusterTol), triangles become
+// triples of cluster ids (rotation-canonical, winding kept), triangles with two corners in
+// one cluster are ignored on both sides, and the two multisets must be equal.
+const clusterTol = 2.5e-3
 
 type triSet struct {
 	n     int
-	count map[triKey]int
-	rep   map[triKey][9]float64 // one representative per key, rotated like the key
+	tris  [][9]float64
 	err   string
 	empty bool // sequential March panicked on an empty surface
 }
 
-func weldCell(f float64) int64 { return int64(math.Round(f * 1000)) }
-
-func less9(a, b *[9]int64) bool {
-	for i := 0; i < 9; i++ {
-		if a[i] != b[i] {
-			return a[i] < b[i]
-		}
-	}
-	return false
-}
-
 // triangles reads a marched mesh through its public accessors.
 func triangles(m modeling.Mesh, attr string) *triSet {
-	ts := &triSet{count: map[triKey]int{}, rep: map[triKey][9]float64{}}
+	ts := &triSet{}
 	if m.Topology() != modeling.TriangleTopology {
 		ts.err = "topology is " + m.Topology().String()
 		return ts
@@ -410,9 +408,9 @@ func triangles(m modeling.Mesh, attr string) *triSet {
 	}
 	pos := m.Float3Attribute(attr)
 	L := pos.Len()
+	ts.tris = make([][9]float64, 0, idx.Len()/3)
 	for t := 0; t < idx.Len(); t += 3 {
 		var p [9]float64
-		var k [9]int64
 		for c := 0; c < 3; c++ {
 			vi := idx.At(t + c)
 			if vi < 0 || vi >= L {
@@ -421,34 +419,86 @@ func triangles(m modeling.Mesh, attr string) *triSet {
 			}
 			v := pos.At(vi)
 			p[3*c], p[3*c+1], p[3*c+2] = v.X(), v.Y(), v.Z()
-			k[3*c], k[3*c+1], k[3*c+2] = weldCell(v.X()), weldCell(v.Y()), weldCell(v.Z())
 		}
-		// canonical rotation (keeps the winding)
-		best, bp := k, p
-		for rot := 1; rot < 3; rot++ {
-			var rk [9]int64
-			var rp [9]float64
-			for j := 0; j < 9; j++ {
-				rk[j] = k[(j+3*rot)%9]
-				rp[j] = p[(j+3*rot)%9]
-			}
-			if less9(&rk, &best) {
-				best, bp = rk, rp
-			}
-		}
-		key := triKey(best)
-		if _, ok := ts.count[key]; !ok {
-			ts.rep[key] = bp
-		}
-		ts.count[key]++
+		ts.tris = append(ts.tris, p)
 		ts.n++
 	}
 	return ts
 }
 
-func (k triKey) String() string {
-	return fmt.Sprintf("(%.3f,%.3f,%.3f)-(%.3f,%.3f,%.3f)-(%.3f,%.3f,%.3f)",
-		float64(k[0])/1000, float64(k[1])/1000, float64(k[2])/1000, float64(k[3])/1000, float64(k[4])/1000, float64(k[5])/1000, float64(k[6])/1000, float64(k[7])/1000, float64(k[8])/1000)
+type clusterer struct {
+	ids    map[[3]float64]int
+	pts    [][3]float64
+	parent []int
+}
+
+func (c *clusterer) add(p [3]float64) {
+	if _, ok := c.ids[p]; !ok {
+		c.ids[p] = len(c.pts)
+		c.pts = append(c.pts, p)
+	}
+}
+
+func (c *clusterer) find(i int) int {
+	for c.parent[i] != i {
+		c.parent[i] = c.parent[c.parent[i]]
+		i = c.parent[i]
+	}
+	return i
+}
+
+func (c *clusterer) build() {
+	c.parent = make([]int, len(c.pts))
+	for i := range c.parent {
+		c.parent[i] = i
+	}
+	type cell [3]int64
+	grid := map[cell][]int{}
+	key := func(p [3]float64) cell {
+		return cell{int64(math.Floor(p[0] / clusterTol)), int64(math.Floor(p[1] / clusterTol)), int64(math.Floor(p[2] / clusterTol))}
+	}
+	for i, p := range c.pts {
+		k := key(p)
+		for dx := int64(-1); dx <= 1; dx++ {
+			for dy := int64(-1); dy <= 1; dy++ {
+				for dz := int64(-1); dz <= 1; dz++ {
+					for _, j := range grid[cell{k[0] + dx, k[1] + dy, k[2] + dz}] {
+						q := c.pts[j]
+						if math.Abs(p[0]-q[0]) <= clusterTol && math.Abs(p[1]-q[1]) <= clusterTol && math.Abs(p[2]-q[2]) <= clusterTol {
+							if a, b := c.find(i), c.find(j); a != b {
+								c.parent[a] = b
+							}
+						}
+					}
+				}
+			}
+		}
+		grid[k] = append(grid[k], i)
+	}
+}
+
+type triKey [3]int
+
+func (c *clusterer) keyOf(t *[9]float64) (k triKey, rot int, degenerate bool) {
+	var id [3]int
+	for j := 0; j < 3; j++ {
+		id[j] = c.find(c.ids[[3]float64{t[3*j], t[3*j+1], t[3*j+2]}])
+	}
+	if id[0] == id[1] || id[1] == id[2] || id[0] == id[2] {
+		return k, 0, true
+	}
+	rot = 0
+	if id[1] < id[rot] {
+		rot = 1
+	}
+	if id[2] < id[rot] {
+		rot = 2
+	}
+	return triKey{id[rot], id[(rot+1)%3], id[(rot+2)%3]}, rot, false
+}
+
+func describeTri(t *[9]float64) string {
+	return fmt.Sprintf("(%.4f,%.4f,%.4f)-(%.4f,%.4f,%.4f)-(%.4f,%.4f,%.4f)", t[0], t[1], t[2], t[3], t[4], t[5], t[6], t[7], t[8])
 }
 
 // diff returns "" when both meshes are the same triangle multiset. tight: also compare the
@@ -460,34 +510,78 @@ func (a *triSet) diff(b *triSet, tight bool) string {
 		}
 		return ""
 	}
+	c := &clusterer{ids: map[[3]float64]int{}}
+	for _, ts := range []*triSet{a, b} {
+		for i := range ts.tris {
+			t := &ts.tris[i]
+			c.add([3]float64{t[0], t[1], t[2]})
+			c.add([3]float64{t[3], t[4], t[5]})
+			c.add([3]float64{t[6], t[7], t[8]})
+		}
+	}
+	c.build()
+	type entry struct {
+		n   int
+		rep *[9]float64
+		rot int
+	}
+	count := func(ts *triSet) (map[triKey]*entry, int) {
+		m := map[triKey]*entry{}
+		slivers := 0
+		for i := range ts.tris {
+			k, rot, deg := c.keyOf(&ts.tris[i])
+			if deg {
+				slivers++
+				continue
+			}
+			e := m[k]
+			if e == nil {
+				e = &entry{rep: &ts.tris[i], rot: rot}
+				m[k] = e
+			}
+			e.n++
+		}
+		return m, slivers
+	}
+	ma, sa := count(a)
+	mb, sb := count(b)
 	var onlyA, onlyB []string
 	na, nb := 0, 0
-	for k, c := range a.count {
-		if d := c - b.count[k]; d > 0 {
+	for k, e := range ma {
+		o := 0
+		if x := mb[k]; x != nil {
+			o = x.n
+		}
+		if d := e.n - o; d > 0 {
 			na += d
 			if len(onlyA) < 3 {
-				onlyA = append(onlyA, k.String())
+				onlyA = append(onlyA, describeTri(e.rep))
 			}
 		}
 	}
-	for k, c := range b.count {
-		if d := c - a.count[k]; d > 0 {
+	for k, e := range mb {
+		o := 0
+		if x := ma[k]; x != nil {
+			o = x.n
+		}
+		if d := e.n - o; d > 0 {
 			nb += d
 			if len(onlyB) < 3 {
-				onlyB = append(onlyB, k.String())
+				onlyB = append(onlyB, describeTri(e.rep))
 			}
 		}
 	}
 	if na+nb > 0 {
-		return fmt.Sprintf("triangle multisets differ: reference has %d triangles, other has %d; %d only in the reference (e.g. %v), %d only in the other (e.g. %v)",
-			a.n, b.n, na, onlyA, nb, onlyB)
+		return fmt.Sprintf("triangle multisets differ: reference has %d triangles, other has %d (slivers below %.1e ignored: %d / %d); %d only in the reference (e.g. %v), %d only in the other (e.g. %v)",
+			a.n, b.n, clusterTol, sa, sb, na, onlyA, nb, onlyB)
 	}
 	if tight {
-		for k, pa := range a.rep {
-			pb := b.rep[k]
+		for k, ea := range ma {
+			eb := mb[k]
 			for j := 0; j < 9; j++ {
-				if math.Abs(pa[j]-pb[j]) > 1e-9 {
-					return fmt.Sprintf("triangle %s: coordinate %d is %.12g in the reference and %.12g in the other (lattice canvas, tolerance 1e-9)", k.String(), j, pa[j], pb[j])
+				pa, pb := ea.rep[(j+3*ea.rot)%9], eb.rep[(j+3*eb.rot)%9]
+				if math.Abs(pa-pb) > 1e-9 {
+					return fmt.Sprintf("triangle %s: coordinate %d is %.12g in the reference and %.12g in the other (lattice canvas, tolerance 1e-9)", describeTri(ea.rep), j, pa, pb)
 				}
 			}
 		}
@@ -548,7 +642,7 @@ func march(cv *marching.MarchingCanvas, attr string, cutoff float64, parallel bo
 	if p != nil {
 		if !parallel && strings.Contains(p.Value, "without the attribute") {
 			// sequential March on an empty surface (DESIGN §0: not a C10 matter): empty multiset
-			return &triSet{count: map[triKey]int{}, rep: map[triKey][9]float64{}, empty: true}, nil
+			return &triSet{empty: true}, nil
 		}
 		return nil, p
 	}
